@@ -13,7 +13,8 @@ AcordHeights.tla: heights propagate along levelled differences, zenith angles (w
 horizontal distance, or alone between known positions) and vectors in either direction; the closure is reachability whatever the kinds along the path; every spanning tree over
 4-5 points in every mixture of kinds and directions, heights omitted.
 Acord3D.tla: spatial networks in which position and height depend on each other (slope distance reduced by a
-zenith angle or by two known heights, zenith angle alone between known positions, vectors): two-sorted closure."""
+zenith angle or by two known heights, zenith angle alone between known positions, vectors): two-sorted closure;
+construction histories over four points plus one further observation of any kind."""
 import sessions, acordnets
 LEVEL = "exploration"
 NOISE = "{0}"
@@ -67,7 +68,12 @@ def run(ctx):
     ctx.note("AcordHeights: %d link histories (%d states), %d runs, %d heights derived" % (len(ch), rh.distinct, sth["runs"], sth["points_checked"]))
     # positions and heights feeding each other (spatial networks, nothing but the fixed points given)
     K3D = '{"polar3", "polar3b", "polardh", "polarza", "interza", "vec", "trilatdh"}'
-    r3, c3 = acordnets.generate(ctx, "c06s", {"NP": 4, "Kinds": K3D, "Keep": 13 if q else 1, "Seed": ctx.seed}, module="Acord3D")
+    if q:
+        r3, c3 = acordnets.generate(ctx, "c06s", {"NP": 4, "Kinds": K3D, "MaxExtra": 0, "Keep": 13, "Seed": ctx.seed}, module="Acord3D")
+        r3b, c3b = acordnets.generate(ctx, "c06t", {"NP": 4, "Kinds": '{"polar3b", "polardh", "vec"}', "MaxExtra": 1, "Keep": 211, "Seed": ctx.seed}, module="Acord3D")
+        c3, r3.distinct = c3 + c3b, r3.distinct + r3b.distinct
+    else:
+        r3, c3 = acordnets.generate(ctx, "c06s", {"NP": 4, "Kinds": K3D, "MaxExtra": 1, "Keep": 23, "Seed": ctx.seed}, module="Acord3D")
     st3d = acordnets.run(ctx, c3, algs=(None,), spatial=True)
     ctx.note("Acord3D: %d construction histories (%d states), %d runs, %d points positioned in x, y, z" % (len(c3), r3.distinct, st3d["runs"], st3d["points_checked"]))
     # a sample of all three families through the sanitizer build
